@@ -70,12 +70,6 @@ func (m *monC05) Finish(rc *RunCtx) {
 	}
 	annualEnd := Date{sc.End.Y, sc.AnnualMonth, sc.AnnualDay}.Zeit()
 	extended := annualEnd >= end // the model then runs until the day after the annual output date
-	extSig := func(s string) string {
-		if extended {
-			return "end_date_extension"
-		}
-		return s
-	}
 	// ---------------- daily file ----------------
 	recs, err := readDailyRecords(rc)
 	if sc.OutInterval == 0 {
@@ -90,6 +84,24 @@ func (m *monC05) Finish(rc *RunCtx) {
 				want = append(want, z)
 			}
 		}
+		if extended {
+			// recorded finding F11: the run is prolonged to the day after the annual output date of the end year. The finding
+			// covers exactly that prolongation; anything else (a shorter or a longer file) is judged against it and reported.
+			var wantExt []int
+			for z := start; z <= annualEnd+1; z++ {
+				if z%sc.OutInterval == 0 {
+					wantExt = append(wantExt, z)
+				}
+			}
+			exact := len(recs) == len(wantExt)
+			for i := 0; exact && i < len(recs); i++ {
+				exact = recs[i].zeit == wantExt[i]
+			}
+			if exact && len(wantExt) > len(want) {
+				rc.Violate("C05", "end_date_extension", fmt.Sprintf("daily file has %d records, expected %d: the run was prolonged from the end date %s to %s, the day after the annual output date", len(recs), len(want), sc.End, DateOfZeit(annualEnd+1)), 0, 0, nil)
+			}
+			want = wantExt
+		}
 		n := len(recs)
 		bad := false
 		for i := 0; i < n && i < len(want); i++ {
@@ -103,7 +115,7 @@ func (m *monC05) Finish(rc *RunCtx) {
 			rc.Violate("C05", "daily_records_missing", fmt.Sprintf("daily file has %d records, expected %d: first missing %s (end date %s)", n, len(want), DateOfZeit(want[n]), sc.End), want[n], 0, nil)
 		}
 		if !bad && n > len(want) {
-			rc.Violate("C05", extSig("daily_records_after_end"), fmt.Sprintf("daily file has %d records, expected %d: extra record dated %q after the end date %s (annual output date in the end year: %s)", n, len(want), recs[len(want)].fields[0], sc.End, DateOfZeit(annualEnd)), 0, 0, nil)
+			rc.Violate("C05", "daily_records_after_end", fmt.Sprintf("daily file has %d records, expected %d: extra record dated %q after the end %s (configured end date %s, annual output date in the end year %s)", n, len(want), recs[len(want)].fields[0], DateOfZeit(want[len(want)-1]), sc.End, DateOfZeit(annualEnd)), 0, 0, nil)
 		}
 		for _, r := range recs {
 			if !checkFieldCount(rc, "C05", "daily file", sc.DailyCols, csv, r) {
@@ -130,9 +142,13 @@ func (m *monC05) Finish(rc *RunCtx) {
 		yr, err := readRecords(p, sc.YearlyCols, csv, 0, sc.DateFormat, sc.DivideCentury)
 		if err == nil {
 			var want []int
+			yEnd := end
+			if extended {
+				yEnd = annualEnd + 1 // finding F11 (reported on the daily file): the prolonged run writes the end year's record too
+			}
 			for y := sc.Start.Y; y <= sc.End.Y; y++ {
 				z := Date{y, sc.AnnualMonth, sc.AnnualDay}.Zeit()
-				if z >= start && z <= end {
+				if z >= start && z <= yEnd {
 					want = append(want, z)
 				}
 			}
@@ -150,9 +166,6 @@ func (m *monC05) Finish(rc *RunCtx) {
 			}
 			if okDates && len(yr) != len(want) {
 				sig := "yearly_record_count"
-				if len(yr) == len(want)+1 && extended {
-					sig = "end_date_extension"
-				}
 				rc.Violate("C05", sig, fmt.Sprintf("yearly file has %d records, expected %d (annual output date %02d.%02d., period %s..%s)", len(yr), len(want), sc.AnnualDay, sc.AnnualMonth, sc.Start, sc.End), 0, 0, nil)
 			}
 			for _, r := range yr {
@@ -178,10 +191,15 @@ func (m *monC05) Finish(rc *RunCtx) {
 				if i == 0 {
 					continue
 				}
-				if e.Harvest.Zeit() > start && e.Harvest.Zeit() <= end {
+				cEnd := end
+				if extended {
+					cEnd = annualEnd + 1
+				}
+				if e.Harvest.Zeit() > start && e.Harvest.Zeit() <= cEnd {
 					want = append(want, exp{e.Crop, e.Harvest})
-				} else if e.Harvest.Zeit() > end && e.Harvest.Zeit() <= m.ende && extended {
-					rc.Cov("harvest_in_extension", 1)
+					if e.Harvest.Zeit() > end {
+						rc.Cov("harvest_in_extension", 1)
+					}
 				}
 			}
 			okRec := true
@@ -201,9 +219,6 @@ func (m *monC05) Finish(rc *RunCtx) {
 			}
 			if okRec && len(cr) != len(want) {
 				sig := "crop_record_count"
-				if len(cr) > len(want) && extended {
-					sig = "end_date_extension"
-				}
 				rc.Violate("C05", sig, fmt.Sprintf("crop file has %d records, %d rotation entries are harvested inside the period %s..%s (observed harvest days %d)", len(cr), len(want), sc.Start, sc.End, len(m.harvests)), 0, 0, nil)
 			}
 			for _, r := range cr {
